@@ -356,6 +356,11 @@ def extra_alphabet():
         _fn('ff', None, [lab('jump'), jmp('jump'), {'function': {'name': 'gg', 'statements': [lab('A'), jmp('B')]}}]),   # a function statement inside a function body
         _fn_last('ff', ['a', 'a'], [{'return': {'expr': var('a')}}]),                     # duplicate argument, the second one is the "..." parameter
         _fn_last('gg', ['a', 'b'], [{'return': {'expr': var('a')}}]),                     # unused "..." parameter
+        # labels that carry the parser's reserved prefix, hand-written: dangling, defined, defined twice
+        jmp('__bareScriptDone0'), lab('__bareScriptDone0'),
+        # names with characters that are special to str.format / % formatting, in every place a warning quotes a name
+        _fn('f{0}', ['a{1}', 'b%s'], [lab('L{0}'), jmp('M%d'), ass('u{}', one), {'return': {'expr': var('a{1}')}}]),
+        _fn('g%s', None, [lab('{'), lab('{'), jmp('}')]),
     ]
 
 
@@ -517,6 +522,63 @@ def fam_exprstmt(arg):
             check_exprstmt({'maxn': maxn, 'i': i, 'scope': scope}, acc)
     if idxs:
         acc.sample({'expression': all_expr_trees(maxn)[idxs[len(idxs) // 2]]})
+    return acc.result()
+
+
+
+# ---------------------------------------------------------------- the built-in if() as an expression statement
+
+IF_CONDS = [{'number': 0}, {'number': 1}, None]                      # None: the tape function cc()
+IF_ARMS = [{'function': {'name': 'systemLog', 'args': [{'string': 'note'}]}}, {'number': 0}, {'variable': 'x'},
+           {'binary': {'op': '+', 'left': {'number': 1}, 'right': {'function': {'name': 'systemLog', 'args': [{'string': 'deep'}]}}}}]
+IF_WRAPS = ('plain', 'operand', 'nested')
+
+
+def if_cases():
+    out = []
+    for wrap in IF_WRAPS:
+        for scope in ('global', 'function'):
+            for c in range(len(IF_CONDS)):
+                out.append({'wrap': wrap, 'scope': scope, 'cond': c, 'arms': []})
+                for a in range(len(IF_ARMS)):
+                    out.append({'wrap': wrap, 'scope': scope, 'cond': c, 'arms': [a]})
+                    for b in range(len(IF_ARMS)):
+                        out.append({'wrap': wrap, 'scope': scope, 'cond': c, 'arms': [a, b]})
+    return out
+
+
+def build_if(case):
+    cond = copy.deepcopy(IF_CONDS[case['cond']]) or copy.deepcopy(jm.CALL_CC)
+    call = {'function': {'name': 'if', 'args': [cond] + [copy.deepcopy(IF_ARMS[i]) for i in case['arms']]}}
+    if case['wrap'] == 'operand':
+        call = {'binary': {'op': '+', 'left': {'number': 0}, 'right': call}}
+    elif case['wrap'] == 'nested':
+        call = {'function': {'name': 'if', 'args': [{'number': 1}, call]}}
+    stmt = {'expr': {'expr': call}}
+    after = {'expr': {'expr': {'function': {'name': 'systemLog', 'args': [{'string': 'after'}]}}}}
+    if case['scope'] == 'global':
+        return {'statements': [stmt, after, {'return': {'expr': {'variable': 'x'}}}]}
+    return {'statements': [{'function': {'name': 'hh', 'statements': [stmt, after, {'return': {'expr': {'number': 1}}}]}},
+                           {'expr': {'name': 'x', 'expr': {'function': {'name': 'hh', 'args': []}}}}, {'return': {'expr': {'variable': 'x'}}}]}
+
+
+def check_ifstmt(case, acc):
+    model = build_if(case)
+    cls = purity_and_exactness(model, case, acc)
+    if cls is None:
+        return
+    if any(c[0] == 'pointless' for c in cls):
+        acc.nontrivial += 1
+    justify(model, cls, case, acc, jump_runner, 1)
+
+
+def fam_ifstmt(arg):
+    acc = Acc('ifstmts')
+    for case in arg:
+        acc.cases += 1
+        check_ifstmt(case, acc)
+    if arg:
+        acc.sample({'case': arg[-1], 'statement': build_if(arg[-1])['statements'][0]})
     return acc.result()
 
 
@@ -719,14 +781,16 @@ def families(tier):
                f'a function-local variable / an argument read exactly once, inside every expression tree with <= {maxn} internal nodes, in a return, an assignment, a jump condition and a call argument: an "unused" verdict is refuted by renaming the definition', expected=nuse * len(USE_KINDS) * 2),
         Family('exprstmts', fam_exprstmt, [(maxn, idxs) for idxs in split(list(range(ntrees)), 32)],
                f'every expression tree with <= {maxn} internal nodes over {{+, &&, ==, <, unary -, !, group}} and leaves {{logging call, 0, x}} as an expression statement, at global scope and inside a function: a "pointless" verdict is justified by deleting the statement', expected=2 * ntrees),
-        Family('jumpmodels', fam_jump, shards, f'every list of length <= {maxlen} over the {nq}-statement alphabet (C08 alphabet + dangling jumps, third label, pointless statement, 10 function statements (one with a nested function statement), labels named like schema keys with duplicate names/arguments and label-bearing bodies)',
+        Family('ifstmts', fam_ifstmt, split(if_cases(), 8), 'the built-in if() as an expression statement with 1..3 arguments: condition in {0, 1, tape call}, each arm in {logging call, 0, x, 1 + logging call}, plain / as an operand / as the selected arm of another if(), at global scope and inside a function: a "pointless" verdict is justified by deleting the statement on every tape',
+               expected=len(IF_WRAPS) * 2 * len(IF_CONDS) * (1 + len(IF_ARMS) + len(IF_ARMS) ** 2)),
+        Family('jumpmodels', fam_jump, shards, f'every list of length <= {maxlen} over the {nq}-statement alphabet (C08 alphabet + dangling jumps, third label, pointless statement, 12 function statements (one with a nested function statement; two whose function / argument / variable / label names contain braces and percent signs), labels named like schema keys and with the reserved __bareScript prefix, with duplicate names/arguments and label-bearing bodies)',
                expected=sum(nq ** k for k in range(maxlen + 1))),
         Family('structured', fam_structured, split(sc, 48), 'parsed nesting chains (depth per tier) and every small program wrapped in a function with an unused argument, an unused variable and a pointless statement', expected=len(sc)),
         Family('shipped', fam_shipped, [files], 'the shipped .bare scripts found at run time', expected=len(files)),
     ]
 
 
-_CHECKS = {'accessors': check_accessor, 'callee': check_callee, 'usesites': check_usesite, 'jumpmodels': check_jump, 'structured': check_structured, 'shipped': check_shipped, 'exprstmts': check_exprstmt}
+_CHECKS = {'accessors': check_accessor, 'callee': check_callee, 'usesites': check_usesite, 'jumpmodels': check_jump, 'structured': check_structured, 'shipped': check_shipped, 'exprstmts': check_exprstmt, 'ifstmts': check_ifstmt}
 
 
 def replay(family, case):
